@@ -86,19 +86,38 @@ def check(idx: Index, rep: Report, tier: str) -> str:
 
     # ---- R3 failure paths
     r = rep.rule("C20.R3", "unallocated registers are rejected before anything is emitted; a cycle without scratch outside the integer class raises PassFailedException", floor=2)
-    raises = [n for n in walk_local(f.node) if isinstance(n, ast.Raise) and "All registers must be allocated" in unparse(n)]
+    raises = [n for n in walk_local(f.node) if isinstance(n, ast.Raise) and "must be allocated" in unparse(n)]
     emits = [c for c in calls_in(f.node) if call_attr(c) in ("_insert_mv_op", "_insert_swap_ops") or unparse(c.func).startswith("rewriter.")]
     if raises:
-        facts = [(re.sub(r"\s+", " ", unparse(t)), p) for t, p in guard_facts(f.node, raises[0])]
-        cond_ok = any("all((i.is_allocated for i in src_types))" in t and "all((i.is_allocated for i in dst_types))" in t for t, p in facts) or (("all((i.is_allocated for i in src_types))", False) in facts or ("all((i.is_allocated for i in dst_types))", False) in facts)
-        rn = cfg.node_of(raises[0])
-        first = all(cfg.node_of(c) not in cfg.reachable(cfg.entry, avoid=lambda n: False) or rn not in cfg.reachable(cfg.node_of(c)) for c in emits)
-        tests = {cfg.node_of(n.test) for n in walk_local(f.node) if isinstance(n, ast.If) and any(x is raises[0] for x in ast.walk(n))}
-        before = all(cfg.path_avoiding(cfg.entry, cfg.node_of(c), lambda n: n.id in tests, follow_exc=False) is None for c in emits)
-        if cond_ok and before:
+        from ..astutil import parent_map as _pm
+
+        pm = _pm(f.node)
+        gates: dict[str, set[int]] = {"src_types": set(), "dst_types": set()}
+        for rs in raises:
+            facts = [(re.sub(r"\s+", " ", unparse(t)), p) for t, p in guard_facts(f.node, rs)]
+            tests = {cfg.node_of(n.test) for n in walk_local(f.node) if isinstance(n, ast.If) and any(x is rs for x in ast.walk(n))}
+            loops = []
+            n_ = rs
+            while id(n_) in pm:
+                n_ = pm[id(n_)]
+                if isinstance(n_, ast.For):
+                    loops.append(n_)
+            for coll in gates:
+                whole = any(re.search(rf"all\(\(\w+\.is_allocated for \w+ in {coll}\)\)", t) for t, p in facts)
+                per_elem = [lp for lp in loops if unparse(lp.iter) == coll and any(re.fullmatch(rf"{re.escape(unparse(lp.target))}\.is_allocated", t) and not p for t, p in facts)]
+                per_elem += [lp for lp in loops if unparse(lp.iter) == coll and any(t == f"not {unparse(lp.target)}.is_allocated" and p for t, p in facts)]
+                if whole:
+                    gates[coll] |= tests
+                for lp in per_elem:
+                    gates[coll].add(cfg.node_of(lp))
+        missing = [c_ for c_, g_ in gates.items() if not g_]
+        late = [c_ for c_, g_ in gates.items() if g_ and any(cfg.path_avoiding(cfg.entry, cfg.node_of(c), lambda n, g_=g_: n.id in g_, follow_exc=False) is not None for c in emits)]
+        if not missing and not late:
             r.ok(f.fq + ":allocated", f"{f.loc} allocation of all sources and destinations checked before the first emitted instruction")
+        elif missing:
+            r.fail(f.fq + ":allocated", Finding("C20.R3", f.fq, "unallocated-accepted", f"the registers of {missing} are not checked to be allocated before instructions are emitted", f.loc))
         else:
-            r.fail(f.fq + ":allocated", Finding("C20.R3", f.fq, "unallocated-accepted", "instructions can be emitted before all source and destination registers were checked to be allocated", f.loc))
+            r.fail(f.fq + ":allocated", Finding("C20.R3", f.fq, "unallocated-accepted", f"instructions can be emitted before the registers of {late} were checked to be allocated", f.loc))
     else:
         r.fail(f.fq + ":allocated", Finding("C20.R3", f.fq, "unallocated-accepted", "unallocated registers are no longer rejected", f.loc))
     fr = [n for n in walk_local(f.node) if isinstance(n, ast.Raise) and "Float cyclic move without free register" in unparse(n)]
